@@ -596,11 +596,11 @@ def run_family2(ctx, pid, replay_cases=None, agent_again=False):
     skipped = [c for c in lost if (c.get("note") or "").startswith("skipped:")]
     lost = [c for c in lost if c not in skipped]
     if skipped:
-        ctx.notes.append("%d generated case(s) were not run: %s" % (len(skipped), skipped[0]["note"]))
+        sched_lib.skipped_note(ctx, skipped, len(cases))
     if lost:
         ctx.fail("correspondence", "the driver could not run %d generated case(s): %s" % (len(lost), (lost[0].get("note") or "")[:200]),
                  inputs_of2(lost[0]))
-    cases = sched_lib.usable(cases)
+    cases = sched_lib.confirm_hung(ctx, tool, sched_lib.usable(cases), rerun2)
     accepted = evaluate2(ctx, pid, tool, cases, "cases2")
     ctx.cov["evaluations"] = len(cases)
     ctx.cov["traces_validated_against_impl"] = accepted
